@@ -144,3 +144,45 @@ Example C13_recounts_example :
   = map (fun t => (TP t, FP t, FN t, TN t)) (truth_space_table (1 # 2) (rounding None) true None (rev rows))
   /\ tf_table [Some 3; None; Some 1; Some 3] = tf_table [Some 1; Some 3; Some 3; None].
 Proof. vm_compute. split; reflexivity. Qed.
+
+(* non-vacuity of the two renaming theorems (witnesses of docs/AUDIT_1.md) *)
+Example C13_labels_table_id_renaming_example :
+  let phi := fun n : nat => (2 * n + 3)%nat in
+  let inv := fun a : nat => ((a - 3) / 2)%nat in
+  let scoref := fun l r : nat => inject_Z (Z.of_nat (l + 2 * r)) in
+  let foundf := fun l r : nat => Nat.even (l + r) in
+  let scoref' := fun a b : nat => scoref (inv a) (inv b) in
+  let foundf' := fun a b : nat => foundf (inv a) (inv b) in
+  let recs := [0; 1; 2; 3]%nat in
+  let ls := [ {| id_l := 2%nat; id_r := 0%nat; cms := Some 1%Q |};      (* higher id supplied on the left *)
+              {| id_l := 0%nat; id_r := 1%nat; cms := None |};
+              {| id_l := 1%nat; id_r := 3%nat; cms := Some 0%Q |};
+              {| id_l := 3%nat; id_r := 7%nat; cms := Some 1%Q |} ] in  (* 7 is not a record *)
+  (* the hypotheses hold on the ids in play ... *)
+  forallb (fun a => forallb (fun b => implb (Nat.ltb a b) (Nat.ltb (phi a) (phi b))
+                                     && Qeq_bool (scoref' (phi a) (phi b)) (scoref a b)
+                                     && Bool.eqb (foundf' (phi a) (phi b)) (foundf a b)) (seq 0 8)) (seq 0 8) = true
+  (* ... and the renamed job has the same, non-trivial, truth table *)
+  /\ truth_space_table_from_labels_table (1 # 2) (rounding None) scoref' foundf' (map phi recs) (map (relabel phi) ls)
+     = truth_space_table_from_labels_table (1 # 2) (rounding None) scoref foundf recs ls
+  /\ map (fun t => (thr t, TP t, FP t, FN t, TN t))
+         (truth_space_table_from_labels_table (1 # 2) (rounding None) scoref foundf recs ls)
+     = [ (4 # 1, 1, 1, 0, 1); (7 # 1, 0, 1, 1, 1) ].
+Proof. vm_compute. repeat split; reflexivity. Qed.
+
+Example C13_blocking_counts_id_renaming_example :
+  let phi := fun n : nat => (n + 10)%nat in
+  let adm := fun l r : nat => Nat.ltb l r in
+  let r0 := fun l r : nat => of_bool (Nat.even (l + r)) in                 (* parity rules: invariant under +10 *)
+  let r1 := fun l r : nat => if Nat.eqb l 0 then U else of_bool (Nat.odd r) in
+  let r1' := fun a b : nat => if Nat.eqb a 10 then U else of_bool (Nat.odd b) in
+  let key := fun x : nat => if Nat.eqb x 3 then None else Some [Z.of_nat (Nat.modulo x 2)] in
+  let key' := fun a : nat => key (a - 10)%nat in
+  let L := [0; 1; 2; 3; 4]%nat in
+  forallb (fun a => forallb (fun b => Bool.eqb (adm (phi a) (phi b)) (adm a b)
+                                     && tv_eqb (r0 (phi a) (phi b)) (r0 a b)
+                                     && tv_eqb (r1' (phi a) (phi b)) (r1 a b)) L) L = true
+  /\ (post_filter_count adm r0 (map phi L) (map phi L), post_filter_count adm r0 L L) = (4, 4)
+  /\ (pre_filter_count key' key' (map phi L) (map phi L), pre_filter_count key key L L) = (10, 10)
+  /\ (row_counts 2 (block adm [r0; r1'] (map phi L) (map phi L)), row_counts 2 (block adm [r0; r1] L L)) = ([4; 1], [4; 1]).
+Proof. vm_compute. repeat split; reflexivity. Qed.
